@@ -46,7 +46,8 @@ Definition applicable (s : cstate) (e : event) : bool :=
   match e with
   | EHandshake | EBadHandshake => connecting s
   | EProxyOk | EProxyBad => proxy_connecting s
-  | ESendClose _ _ | ESendMessage | ESendPing | ESendPong | EBeginMessage | ESendFrame | EEndMessage | ETick _ => true
+  | ESendFrame | EEndMessage => negb (wstate_eqb (st s) OPEN && match sst s with SGround => true | _ => false end)
+  | ESendClose _ _ | ESendMessage | ESendPing | ESendPong | EBeginMessage | ETick _ => true
   | EPeerDrop _ => negb (gone s)
   | EOwnDrop => negb (gone s) && droppedByMe s
   (* frames are read in OPEN/CLOSING; in CLOSED (transport not yet gone) octets are still delivered and ignored *)
